@@ -1059,6 +1059,47 @@ Definition cli_request (a : cli_args) : cli_outcome :=
   end.
 End Cli.
 
+(** * Request encodings (round 7)
+
+    A request handed over as a proto ([-proto], [-proto_file], a library client
+    with [Query.SubReq]) can spell the SAME logical query - target [tgt], index
+    path [ql] below it - in ways the flag style cannot write literally: prefix
+    and/or path in the deprecated [element] strings, the first name as
+    [prefix.origin], an [elem] prefix with an [element] path.  [encode_request]
+    is the SubscriptionList each spelling carries; the collector resolves it
+    through [sub_query] (registration) and [complete_path] (snapshot). *)
+Inductive req_enc :=
+| EncElem               (* prefix {target}, path {elem ...}: what the flag style builds *)
+| EncPathElement        (* prefix {target}, path {element ...} *)
+| EncPrefixElement      (* prefix {target, element q0}, path {elem ...} *)
+| EncBothElement        (* prefix {target, element q0}, path {element ...} *)
+| EncPrefixOrigin       (* prefix {target, origin q0}, path {elem ...} *)
+| EncMixed.             (* prefix {target, elem q0}, path {element ...} *)
+
+Definition names_elem (q : path) : list pelem :=
+  map (fun n => {| e_name := n; e_keys := [] |}) q.
+
+Definition mk_gpath (o t : string) (es : list pelem) (el : list string) : gpath :=
+  {| g_origin := o; g_target := t; g_elem := es; g_element := el |}.
+
+Definition encode_request (e : req_enc) (tgt : string) (ql : path) : cquery :=
+  let canon := {| cq_prefix := mk_gpath "" tgt [] [];
+                  cq_path := mk_gpath "" "" (names_elem ql) []; cq_more := [] |} in
+  match e, ql with
+  | EncElem, _ => canon
+  | EncPathElement, _ =>
+      {| cq_prefix := mk_gpath "" tgt [] []; cq_path := mk_gpath "" "" [] ql; cq_more := [] |}
+  | _, [] => canon
+  | EncPrefixElement, q0 :: q =>
+      {| cq_prefix := mk_gpath "" tgt [] [q0]; cq_path := mk_gpath "" "" (names_elem q) []; cq_more := [] |}
+  | EncBothElement, q0 :: q =>
+      {| cq_prefix := mk_gpath "" tgt [] [q0]; cq_path := mk_gpath "" "" [] q; cq_more := [] |}
+  | EncPrefixOrigin, q0 :: q =>
+      {| cq_prefix := mk_gpath q0 tgt [] []; cq_path := mk_gpath "" "" (names_elem q) []; cq_more := [] |}
+  | EncMixed, q0 :: q =>
+      {| cq_prefix := mk_gpath "" tgt (names_elem [q0]) []; cq_path := mk_gpath "" "" [] q; cq_more := [] |}
+  end.
+
 (** * Specification side: the target's own final state, as a flat map *)
 
 (** the origin a leaf belongs to: the prefix's, else the path's, else the
